@@ -10,9 +10,19 @@ Instrumentation: every base element is a zero-argument callable and every mapped
 callable; both append ``(kind, id)`` to one evaluation log owned by the case.  A base callable
 returns ``("b", id)``, a function returns ``("f", id, argument)``: the value of an element therefore
 spells out the whole evaluation that produced it and can be compared with the value of the model's
-expression tree ``("const", v) | ("base", id) | ("map", f_id, expr)``.
+expression tree ``("const", v) | ("base", id) | ("map", f_id, expr) | ("file", id, logged)``.
+
+Lists made by the importers (clauses ``importers`` / ``import_generator``): the interpreter writes tagged PNG files
+into a per-case temporary directory (system temp dir, removed when the case ends), lets
+``menpo.io.import_images`` build the list and models each element as ``("file", id, logged)``.  Loading a file is
+observed through the ``landmark_resolver`` callback (it is called with the path of every image the importer
+loads and appends ``("base", id)`` to the same log) and through the op ``corrupt``, which overwrites, empties,
+deletes or rewrites one file on disk: an element whose file is unreadable at the time of the read must raise,
+every other element must give the image that is on disk now.
 """
 import itertools
+import os
+import tempfile
 
 import numpy as np
 from hypothesis import strategies as st
@@ -24,23 +34,40 @@ from menpo.base import LazyList
 PROPERTY = "C19"
 RULE = (
     "a case is a program {init: constructor, verify: bool, ops: [...]} of up to 25 (clause long_programs: 50) ops drawn "
-    "from new/map/map_list/slice/index/repeat/add/add_list/copy (derivations), get/iter/len (reads) and the documented "
-    "rejections; two shapes: free sequence, or >= 3 derivations + a read + free sequence; pool and element arguments "
-    "are integers reduced modulo the pool/list size at interpretation time (src 0 = latest list, -1 = first list); "
+    "from new/map/map_list/slice/index/repeat/add/add_list/copy (derivations), get/iter/reversed/contains/index_of/"
+    "count/len (reads) and the documented rejections; two shapes: free sequence, or >= 3 derivations + a read + free "
+    "sequence; pool and element arguments are integers reduced modulo the pool/list size at interpretation time "
+    "(src 0 = latest list, -1 = first list); slice bounds are int / numpy.int64 / __index__ objects; map_list, index "
+    "and add_list may afterwards clear / append to / overwrite the container the caller passed; "
     "verify=true additionally reads every new list at birth and re-reads the operands after each op; non-trivial = "
     "the program contains an explicit element read or iteration of a list derived through >= 2 operations that is "
-    "preceded by >= 3 successful derivation ops of >= 2 different kinds; distinct = distinct canonical-JSON digest"
+    "preceded by >= 3 successful derivation ops of >= 2 different kinds; clause importers: the first list comes from "
+    "menpo.io.import_images over tagged PNG files and an op 'corrupt' changes one file on disk (non-trivial = a read "
+    "through >= 1 derivation of a list holding an imported element); clause import_generator: as_generator=True; "
+    "distinct = distinct canonical-JSON digest"
 )
 ASSUMPTIONS = [
     "list lengths are capped at 60: a repeat/+ that would exceed the cap is skipped (counted as event skip=too_long)",
-    "index iterables are list, tuple, int64/int16 ndarray and a one-shot iterator, never booleans; integer "
-    "indices are int, numpy.int64 and an object with __index__",
+    "index iterables are list, tuple, int64/int16 ndarray, a list mixing int/int64/int16 and a one-shot iterator, "
+    "never booleans; integer indices and slice bounds are int, numpy.int64 and an object with __index__",
     "'evaluates only what the element depends on' is read as: exactly the multiset of base/function ids in the "
     "element's expression, each evaluated once, inner before outer (DESIGN.md C19 O.2)",
     "identity elements created by init_from_iterable(values) and by '+ python list' cannot be instrumented; "
     "they are modelled as constants whose read evaluates nothing observable",
     "rejections asserted: map with a wrong-length list, map with a callable iterable, + with a non-iterable "
     "(ValueError), zero slice step (ValueError as for list), out-of-range integer / index-list entry (IndexError)",
+    "reads through the Sequence protocol: reversed(ll) evaluates last to first, one element per next(); x in ll and "
+    "ll.index(x[, start]) give the answer a list of the values gives and evaluate the elements from the start "
+    "position up to and including the first match; ll.count(x) evaluates every element once (order not compared)",
+    "changing the caller's container after the call is only done for map(list), ll[list/ndarray] and ll + list, not "
+    "for LazyList(callables) and init_from_iterable, which may keep what they were given",
+    "imported lists: files are 2x2 RGB PNGs written with Pillow whose pixels spell a tag; stems are equal-width "
+    "lower-case so that lexicographic, natural and path order coincide; an imported image is identified by its "
+    ".path and its pixels must be the ones on disk at the time of the read; a read of an element whose file was "
+    "overwritten with non-image bytes, emptied or deleted must raise (any exception type) and evaluate nothing "
+    "else; file access is observed through the landmark_resolver callback (called with the path of each image "
+    "the importer loads) where the case passes one, and through the corruption of other files everywhere; "
+    "shuffle=False only; no video (ffmpeg absent)",
 ]
 
 MAXLEN = 60
@@ -100,7 +127,7 @@ def m_value(expr):
     k = expr[0]
     if k == "const":
         return expr[1]
-    if k == "base":
+    if k == "base" or k == "file":
         return ("b", expr[1])
     return ("f", expr[1], m_value(expr[2]))
 
@@ -112,7 +139,20 @@ def m_log(expr):
         return []
     if k == "base":
         return [("base", expr[1])]
+    if k == "file":
+        # an imported file is observable through the landmark resolver the importer calls with its path
+        return [("base", expr[1])] if expr[2] else []
     return m_log(expr[2]) + [("f", expr[1])]
+
+
+def m_file(expr):
+    """The id of the file the element is imported from, or None."""
+    while expr[0] == "map":
+        expr = expr[2]
+    return expr[1] if expr[0] == "file" else None
+
+
+RAISED = "<raises: the file was made unreadable after the list was built>"
 
 
 def m_repeat(model, n):
@@ -157,6 +197,58 @@ class _Run(object):
         self.step = -1
         self.kind = "init"
         self.derived = []  # kinds of successful derivation ops so far
+        self.post = None  # (entry, mutate) - caller's container to change after the op
+        self.files = {}  # file id -> {"path", "tag" (None = unreadable now), "name"}
+        self.by_name = {}
+        self.n_tag = 0
+        self.tmp = None
+        self.n_dirs = 0
+        self.need_file = False  # importers clause: only reads of lists holding an imported element count
+
+    # -- imported files
+    def close(self):
+        if self.tmp is not None:
+            self.tmp.cleanup()
+            self.tmp = None
+
+    def write_image(self, bid):
+        """(Re)write file bid as a 2x2 RGB PNG whose pixels spell a fresh tag (written with Pillow, not menpo)."""
+        from PIL import Image as PILImage
+
+        self.n_tag += 1
+        tag = self.n_tag
+        f = self.files[bid]
+        PILImage.new("RGB", (2, 2), (tag % 256, tag // 256, 7)).save(f["path"], format="PNG")
+        f["tag"] = tag
+
+    def resolver(self, path):
+        """landmark_resolver handed to import_images: called by the importer with the path of the image it loaded."""
+        self.log.append(("base", self.by_name.get(os.path.basename(str(path)), str(path))))
+        return None
+
+    def norm(self, v):
+        """Imported images inside a value are replaced by what the model calls them."""
+        if isinstance(v, tuple) and len(v) == 3 and v[0] == "f":
+            return ("f", v[1], self.norm(v[2]))
+        if self.files and hasattr(v, "pixels"):
+            name = os.path.basename(str(getattr(v, "path", "<no path>")))
+            bid = self.by_name.get(name)
+            if bid is None:
+                return ("image of unknown file", name)
+            px = np.asarray(v.pixels)
+            flat = px.reshape(px.shape[0], -1)
+            tag = int(flat[0, 0]) + 256 * int(flat[1, 0]) if px.shape == (3, 2, 2) else -1
+            if tag == self.files[bid]["tag"] and bool((flat == flat[:, :1]).all()):
+                return ("b", bid)
+            return ("b", bid, "pixels say tag %d, the file on disk has tag %r" % (tag, self.files[bid]["tag"]))
+        return v
+
+    def expected(self, expr):
+        """(value, evaluations) a read of the element must give now."""
+        bid = m_file(expr)
+        if bid is not None and self.files[bid]["tag"] is None:
+            return RAISED, []  # the importer fails before it reaches the resolver; nothing outside runs
+        return m_value(expr), m_log(expr)
 
     # -- helpers
     def fn(self, fid):
@@ -208,10 +300,15 @@ class _Run(object):
     def _eval(self, e, j, index_obj=None):
         """Read element j; returns None if value and evaluations are as modelled, else the evidence."""
         expr = e.model[j]
+        want, wlog = self.expected(expr)
         before = len(self.log)
-        got = e.ll[j if index_obj is None else index_obj]
+        try:
+            got = self.norm(e.ll[j if index_obj is None else index_obj])
+        except Exception:
+            if want is not RAISED:
+                raise
+            got = RAISED  # which exception an unreadable file gives is the importer's business
         evs = self.log[before:]
-        want, wlog = m_value(expr), m_log(expr)
         if got == want and evs == wlog:
             e.ok_reads.add(j % len(e.model))
             return None
@@ -292,7 +389,11 @@ class _Run(object):
         ctx = self.ctx
         d = e.depth
         ctx.event("read_depth=%s" % (d if d < 4 else "4+"))
-        if d >= 2 and len(self.derived) >= 3 and len(set(self.derived)) >= 2:
+        if self.need_file:
+            # importers clause: a read through at least one derivation of a list that holds an imported element
+            if d >= 1 and any(m_file(x) is not None for x in e.model):
+                ctx.nontrivial(True)
+        elif d >= 2 and len(self.derived) >= 3 and len(set(self.derived)) >= 2:
             ctx.nontrivial(True)
 
     def check_lengths(self):
@@ -334,9 +435,57 @@ class _Run(object):
             self.n_base += n
             ll = LazyList([_Base(i, self.log) for i in ids])
             model = [("base", i) for i in ids]
+        elif ctor == "import":
+            return self.construct_import(op)
         else:
             raise ValueError("unknown ctor %r" % (ctor,))
         return self.add_entry(ll, model, [], "new")
+
+    def construct_import(self, op, as_generator=False):
+        """k tagged PNGs in a fresh directory, written in drawn order; the list import_images gives for them."""
+        import menpo.io as mio
+
+        ctx = self.ctx
+        self.kind = "import"
+        if self.tmp is None:
+            self.tmp = tempfile.TemporaryDirectory(prefix="verif-c19-")
+        self.n_dirs += 1
+        d = os.path.join(self.tmp.name, "d%d" % self.n_dirs)
+        os.mkdir(d)
+        stems = []
+        for v in op["stems"][: max(1, op["n"])] or [0]:
+            # equal-width lower-case stems: lexicographic, natural and path order coincide
+            while "%s%02d" % ("abc"[v % 3], (v // 3) % 100) in stems:
+                v += 1
+            stems.append("%s%02d" % ("abc"[v % 3], (v // 3) % 100))
+        ids = {}
+        for stem in stems:  # creation order is the drawn order, not the sorted one
+            bid = self.n_base
+            self.n_base += 1
+            name = "%s-%d.png" % (stem, self.n_dirs)
+            self.files[bid] = {"path": os.path.join(d, name), "tag": None, "name": name}
+            self.by_name[name] = bid
+            self.write_image(bid)
+            ids[stem] = bid
+        pattern = {"png": os.path.join(d, "*.png"), "star": os.path.join(d, "*"), "dir": d}[op["pat"]]
+        kw = {}
+        logged = op["res"] == "log"
+        if logged:
+            kw["landmark_resolver"] = self.resolver
+        elif op["res"] == "none":
+            kw["landmark_resolver"] = None
+        m = op["max"]
+        if m is not None:
+            kw["max_images"] = m
+        ctx.event("import=%s/%s/max=%s" % (op["pat"], op["res"], "none" if m is None else "some"))
+        order = sorted(stems)  # "alphanumerically ordered"
+        if m is not None:
+            order = order[:m]  # "only import the first max_images found"
+        model = [("file", ids[stem], logged) for stem in order]
+        if as_generator:
+            return mio.import_images(pattern, normalize=False, as_generator=True, **kw), model
+        ll = mio.import_images(pattern, normalize=False, **kw)
+        return self.add_entry(ll, model, [], "import")
 
     # -- one op
     def run_op(self, op):
@@ -345,6 +494,7 @@ class _Run(object):
         self.kind = kind
         self.operands = []
         self.fresh = []
+        self.post = None
         log_before = len(self.log)
         is_read = False
         if kind == "new":
@@ -361,7 +511,8 @@ class _Run(object):
             if op["as"] == "tuple":
                 fs = tuple(fs)
             new = e.ll.map(fs)
-            self.add_entry(new, [("map", i, x) for i, x in zip(fids, e.model)], [e], kind)
+            ne = self.add_entry(new, [("map", i, x) for i, x in zip(fids, e.model)], [e], kind)
+            self.plan_mutation(ne, fs, op.get("mut"), lambda: self.fn(6))
         elif kind == "map_bad":
             e = self.entry(op["src"])
             n = len(e.model)
@@ -423,16 +574,25 @@ class _Run(object):
         elif kind == "slice":
             e = self.entry(op["src"])
             sl = slice(op["start"], op["stop"], op["step"])
+            bas = op.get("bas", "int")
+            if bas != "int":
+                # the same bounds given as numpy integers / objects with __index__, as a list accepts them
+                kinds = {"np": "nnn", "index": "xxx", "mixed": "nxi", "mixed2": "xin"}[bas]
+                conv = {"n": np.int64, "x": _IndexLike, "i": int}
+                sl_obj = slice(*[None if b is None else conv[c](b) for b, c in zip((sl.start, sl.stop, sl.step), kinds)])
+            else:
+                sl_obj = sl
+            ctx.event("slice_bounds=%s" % bas)
             if op["step"] == 0:
                 ctx.event("reject=slice_step_0")
                 try:
-                    e.ll[sl]
+                    e.ll[sl_obj]
                     ctx.fail("reject.slice_step_zero.not_raised", self.where())
                 except ValueError:
                     pass
             else:
                 ctx.event("slice_step=%s" % ("none" if op["step"] is None else ("neg" if op["step"] < 0 else "pos")))
-                new = e.ll[sl]
+                new = e.ll[sl_obj]
                 self.add_entry(new, e.model[sl], [e], kind)
         elif kind == "index":
             e = self.entry(op["src"])
@@ -454,6 +614,10 @@ class _Run(object):
                 obj = np.array(idx, dtype=np.int64)
             elif how == "ndarray_i16":
                 obj = np.array(idx, dtype=np.int16)
+            elif how == "mixed":
+                # one python list holding python ints and numpy integers of two widths
+                conv = (int, np.int64, np.int16)
+                obj = [conv[(k + (raw[0] if raw else 0)) % 3](v) for k, v in enumerate(idx)]
             elif how == "range":
                 # a range object is an index iterable like any other (it is NOT a slice: negative members wrap)
                 if n and len(raw) >= 3 and not oob:
@@ -484,7 +648,8 @@ class _Run(object):
                     pass
             else:
                 new = e.ll[obj]
-                self.add_entry(new, [e.model[j] for j in idx], [e], kind)
+                ne = self.add_entry(new, [e.model[j] for j in idx], [e], kind)
+                self.plan_mutation(ne, obj, op.get("mut"), lambda: 0)
         elif kind == "repeat":
             e = self.entry(op["src"])
             n = op["n"]
@@ -506,8 +671,10 @@ class _Run(object):
         elif kind == "add_list":
             e = self.entry(op["src"])
             vals = [self.const() for _ in range(op["n"])]
-            new = e.ll + list(vals)
-            self.add_entry(new, e.model + [("const", v) for v in vals], [e], kind)
+            given = list(vals)
+            new = e.ll + given
+            ne = self.add_entry(new, e.model + [("const", v) for v in vals], [e], kind)
+            self.plan_mutation(ne, given, op.get("mut"), self.const)
         elif kind == "add_bad":
             e = self.entry(op["src"])
             what = op["what"]
@@ -535,15 +702,29 @@ class _Run(object):
             is_read = True
             self.note_read(e)
             self.iterate(e, op["k"])
+        elif kind == "reversed":
+            e = self.entry(op["src"])
+            is_read = True
+            self.note_read(e)
+            self.iterate(e, op["k"], backwards=True)
+        elif kind in ("contains", "index_of", "count"):
+            e = self.entry(op["src"])
+            is_read = True
+            self.note_read(e)
+            self.search(e, kind, op)
+        elif kind == "corrupt":
+            self.corrupt(op)
         else:
             raise ValueError("unknown op %r" % (kind,))
 
         if not is_read and len(self.log) != log_before:
             ctx.fail(
-                "lazy.%s.evaluated" % kind,
+                "lazy.%s.evaluated" % self.kind,
                 "%s evaluated %r; only element reads and iteration may evaluate anything"
                 % (self.where(), self.log[log_before:]),
             )
+        if self.post is not None:
+            self.mutate_callers_container(*self.post)
         # persistence: lengths of every earlier list, and one drawn element of one drawn earlier list
         self.check_lengths()
         if self.verify:
@@ -560,41 +741,207 @@ class _Run(object):
             if len(e.model):
                 self.read(e, chk[1] % len(e.model))
 
-    def iterate(self, e, k):
+    def plan_mutation(self, ne, container, mut, junk):
+        """After the op: change the container the CALLER handed to it; the derived list must not notice."""
+        if mut is None:
+            return
+        if isinstance(container, list):
+            if mut == "clear":
+                def change():
+                    del container[:]
+            elif mut == "append":
+                def change():
+                    container.append(junk())
+            else:
+                def change():
+                    for k in range(len(container)):
+                        container[k] = junk()
+        elif isinstance(container, np.ndarray):
+            mut = "overwrite"
+
+            def change():
+                container[...] = 0
+        else:
+            self.ctx.event("callers_container=immutable")
+            return
+        self.ctx.event("callers_container=%s" % mut)
+        self.post = (ne, change)
+
+    def mutate_callers_container(self, ne, change):
+        ctx = self.ctx
+        n = len(ne.model)
+        if len(ne.ll) != n:
+            return  # reported at birth
+        for j in range(n):  # first as it is: a deviation now is a defect of the operation itself
+            d = self._eval(ne, j)
+            if d is not None:
+                self.blame(ne, d)
+                return
+        change()
+        sig = "persistent.callers_container.%s" % self.kind
+        where = "%s: after the caller changed the list/array it had passed to the operation, " % self.where()
+        if len(ne.ll) != n:
+            ctx.fail(sig, where + "the new list has length %d, had %d" % (len(ne.ll), n))
+            return
+        for j in range(n):
+            try:
+                d = self._eval(ne, j)
+            except Exception as exc:  # the very same read succeeded a moment ago
+                ctx.fail(sig, where + "reading element %d of the new list raises %s: %s" % (j, type(exc).__name__, exc))
+                return
+            if d is not None:
+                ctx.fail(
+                    sig,
+                    where + "element %d of the new list reads %r evaluating %r; before: %r evaluating %r"
+                    % (j, d[1], d[3], d[2], d[4]),
+                )
+                return
+
+    def corrupt(self, op):
+        """Change a file on disk behind an imported list: a read loads what is there at the time of the read."""
+        ctx = self.ctx
+        if not self.files:
+            ctx.event("corrupt=no_files")
+            return
+        bids = sorted(self.files)
+        f = self.files[bids[op["which"] % len(bids)]]
+        how = op["how"]
+        ctx.event("corrupt=%s" % how)
+        if how == "garbage" or how == "empty":
+            with open(f["path"], "wb") as fh:
+                fh.write(b"this is not an image\n" if how == "garbage" else b"")
+            f["tag"] = None
+        elif how == "delete":
+            if os.path.exists(f["path"]):
+                os.remove(f["path"])
+            f["tag"] = None
+        else:  # "retag": a valid image again, with other pixels
+            self.write_image(bids[op["which"] % len(bids)])
+        for e in self.pool:
+            e.ok_reads.clear()  # "read correctly earlier" says nothing about the file as it is now
+
+    def iterate(self, e, k, backwards=False):
         ctx = self.ctx
         n = len(e.model)
         if len(e.ll) != n:
             return
-        before = len(self.log)
+        name = "reversed" if backwards else "iteration"
+        order = list(range(n - 1, -1, -1)) if backwards else list(range(n))
         if k is None:
-            ctx.event("iter=full")
-            got = list(e.ll)
+            ctx.event("%s=full" % ("reversed" if backwards else "iter"))
             upto = n
         else:
             upto = k % (n + 1)
-            ctx.event("iter=partial")
-            it = iter(e.ll)
-            got = [next(it) for _ in range(upto)]
+            ctx.event("%s=partial" % ("reversed" if backwards else "iter"))
+        want, wlog, stops = [], [], False
+        for p in order[:upto]:
+            v, l = self.expected(e.model[p])
+            if v is RAISED:
+                stops = True
+                break
+            want.append(v)
+            wlog.extend(l)
+        before = len(self.log)
+        got, raised = [], False
+        it = reversed(e.ll) if backwards else iter(e.ll)
+        try:
+            if k is None:
+                for v in it:
+                    got.append(self.norm(v))
+            else:
+                for _ in range(upto):
+                    got.append(self.norm(next(it)))
+        except StopIteration:
+            pass  # too short: the values differ
+        except Exception:
+            if not stops:
+                raise
+            raised = True
         evs = self.log[before:]
-        want = [m_value(x) for x in e.model[:upto]]
-        wlog = []
-        for x in e.model[:upto]:
-            wlog.extend(m_log(x))
-        if got == want and evs == wlog:
+        if got == want and evs == wlog and raised == stops:
             return
         if self.blame(e):
             return  # single element reads deviate too: reported there, iteration is not the root cause
+        how = "%s %d of %d elements of list #%d" % (
+            "reversed(): taking" if backwards else "iterating", upto, n, self.pool.index(e))
         ctx.expect(
-            got == want,
-            "faithful.iteration.values",
-            lambda: "%s: iterating %d of %d elements of list #%d gives %r, model %r"
-            % (self.where(), upto, n, self.pool.index(e), got, want),
+            got == want and raised == stops,
+            "faithful.%s.values" % name,
+            lambda: "%s: %s gives %r%s, model %r%s"
+            % (self.where(), how, got, " then raises" if raised else "", want, " then raises" if stops else ""),
         )
         ctx.expect(
             evs == wlog,
-            "lazy.iteration.evaluations",
-            lambda: "%s: iterating %d of %d elements of list #%d evaluated %r, expected exactly %r"
-            % (self.where(), upto, n, self.pool.index(e), evs, wlog),
+            "lazy.%s.evaluations" % name,
+            lambda: "%s: %s evaluated %r, expected exactly %r" % (self.where(), how, evs, wlog),
+        )
+
+    def search(self, e, kind, op):
+        """x in ll / ll.index(x[, start]) / ll.count(x): the answer a list gives; evaluation stops at the first match
+        (index, in) or covers every element once (count)."""
+        ctx = self.ctx
+        n = len(e.model)
+        if len(e.ll) != n:
+            return
+        absent = bool(op["absent"]) or n == 0
+        target = ("absent", 0) if absent else m_value(e.model[op["t"] % n])
+        start = op.get("start") if kind == "index_of" else None
+        first = 0
+        if start is not None:
+            first = min(max(n + start, 0) if start < 0 else start, n)
+        wlog, outcome, why, total = [], None, None, 0
+        for p in range(first, n):
+            v, l = self.expected(e.model[p])
+            if v is RAISED:
+                outcome, why = "raises", "file"
+                break
+            wlog.extend(l)
+            # (an element holding an imported image is never equal to a model value)
+            if m_file(e.model[p]) is None and v == target:
+                if kind == "count":
+                    total += 1
+                else:
+                    outcome = True if kind == "contains" else p
+                    break
+        if outcome is None:
+            outcome = total if kind == "count" else False if kind == "contains" else "raises"
+            why = "absent"
+        ctx.event("%s=%s" % (kind, "raises" if outcome == "raises" else "found" if outcome not in (False, 0) else "none"))
+        before = len(self.log)
+        try:
+            if kind == "contains":
+                got = target in e.ll
+            elif kind == "count":
+                got = e.ll.count(target)
+            elif start is None:
+                got = e.ll.index(target)
+            else:
+                got = e.ll.index(target, start)
+        except Exception as exc:
+            if kind == "index_of" and isinstance(exc, ValueError):
+                got = "raises"  # "not found" (compared with the model below)
+            elif outcome == "raises" and why == "file":
+                got = "raises"  # which exception an unreadable file gives is the importer's business
+            else:
+                raise
+        evs = self.log[before:]
+        same_evs = sorted(evs) == sorted(wlog) if kind == "count" else evs == wlog
+        if got == outcome and same_evs:
+            return
+        if self.blame(e):
+            return
+        what = "%s(%r%s) on list #%d of %d elements" % (
+            kind, target, "" if start is None else ", %d" % start, self.pool.index(e), n)
+        ctx.expect(
+            got == outcome,
+            "faithful.%s.result" % kind,
+            lambda: "%s: %s gives %r, a list of the model's values gives %r" % (self.where(), what, got, outcome),
+        )
+        ctx.expect(
+            same_evs,
+            "lazy.%s.evaluations" % kind,
+            lambda: "%s: %s evaluated %r, expected %s %r"
+            % (self.where(), what, evs, "(in any order)" if kind == "count" else "exactly", wlog),
         )
 
     def finish(self):
@@ -610,6 +957,7 @@ class _Run(object):
 
 def _execute(case, ctx, verify):
     run = _Run(ctx, verify)
+    run.need_file = case["init"]["ctor"] == "import"
     try:
         run.step = 0
         run.kind = "new"
@@ -621,6 +969,8 @@ def _execute(case, ctx, verify):
         run.finish()
     except _Abort:
         ctx.event("aborted")
+    finally:
+        run.close()
 
 
 def c_program(case, ctx):
@@ -651,6 +1001,74 @@ def c_program(case, ctx):
         ctx.fails.extend(fails)
 
 
+def c_import_generator(case, ctx):
+    """import_images(..., as_generator=True): the same values in the same order, one file read per next()."""
+    run = _Run(ctx, False)
+    run.step, run.kind = 0, "import_generator"
+    try:
+        g, model = run.construct_import(case["init"], as_generator=True)
+        run.kind = "import_generator"
+        ctx.expect(
+            not isinstance(g, LazyList) and hasattr(g, "__next__"),
+            "faithful.import_generator.type",
+            lambda: "as_generator=True returned %s" % type(g).__name__,
+        )
+        ctx.expect(
+            not run.log, "lazy.import_generator.evaluated", lambda: "creating the generator loaded %r" % (run.log,)
+        )
+        pos, alive, seen_ok = 0, True, 0
+        steps = list(case["steps"]) + ([None] * (len(model) + 1) if case["drain"] else [])
+        for k, stp in enumerate(steps):
+            run.step = k + 1
+            if stp is not None:
+                run.corrupt({"which": stp[0], "how": stp[1]})
+                continue
+            if not alive:
+                break
+            before = len(run.log)
+            if pos == len(model):
+                try:
+                    extra = next(g)
+                    ctx.fail(
+                        "faithful.import_generator.length",
+                        "after %d items the generator yields another one: %r" % (pos, run.norm(extra)),
+                    )
+                except StopIteration:
+                    ctx.event("generator=exhausted")
+                break
+            want, wlog = run.expected(model[pos])
+            try:
+                got = run.norm(next(g))
+            except StopIteration:
+                ctx.fail(
+                    "faithful.import_generator.length", "the generator ends after %d of %d items" % (pos, len(model))
+                )
+                break
+            except Exception:
+                if want is not RAISED:
+                    raise
+                got = RAISED
+                alive = False  # a generator that raised is finished
+            evs = run.log[before:]
+            ctx.expect(
+                got == want,
+                "faithful.import_generator.values",
+                lambda: "item %d of the generator is %r, the list gives %r" % (pos, got, want),
+            )
+            ctx.expect(
+                evs == wlog,
+                "lazy.import_generator.evaluations",
+                lambda: "next() for item %d loaded %r, expected exactly %r" % (pos, evs, wlog),
+            )
+            if want is not RAISED:
+                seen_ok += 1
+            pos += 1
+        ctx.event("generator_items=%s" % min(seen_ok, 3))
+        ctx.nontrivial(len(model) >= 2 and seen_ok >= 1)
+    finally:
+        run.close()
+
+
 # ---------------------------------------------------------------------------------- generator
 _SRC = st.one_of(st.just(0), st.integers(0, 3), st.integers(0, 50), st.integers(-3, -1))
 _ELT = st.integers(0, 120)
@@ -675,12 +1093,33 @@ def _ctor_fields():
     )
 
 
-def s_ops():
+_MUT = st.sampled_from([None, None, None, "clear", "append", "overwrite"])
+
+
+def _import_fields():
+    return dict(
+        ctor=st.just("import"),
+        n=st.integers(1, 6),
+        f=_FID,
+        stems=st.lists(st.integers(0, 299), min_size=6, max_size=6),
+        pat=st.sampled_from(["png", "star", "dir"]),
+        res=st.sampled_from(["log", "log", "log", "default", "none"]),
+        max=st.one_of(st.none(), st.none(), st.integers(1, 7)),
+    )
+
+
+def s_ops(importers=False):
     fids = st.lists(_FID, min_size=1, max_size=4)
     make = {
-        "new": lambda: _op("new", **_ctor_fields()),
+        "new": lambda: (
+            st.one_of(_op("new", **_import_fields()), _op("new", **_ctor_fields()))
+            if importers
+            else _op("new", **_ctor_fields())
+        ),
         "map": lambda: _op("map", src=_SRC, f=_FID),
-        "map_list": lambda: _op("map_list", src=_SRC, fs=fids, **{"as": st.sampled_from(["list", "list", "tuple"])}),
+        "map_list": lambda: _op(
+            "map_list", src=_SRC, fs=fids, mut=_MUT, **{"as": st.sampled_from(["list", "list", "tuple"])}
+        ),
         "map_bad": lambda: _op("map_bad", src=_SRC, fs=fids, delta=st.sampled_from([-3, -2, -1, 1, 2, 3])),
         "map_ambiguous": lambda: _op("map_ambiguous", src=_SRC, f=_FID),
         "get": lambda: _op(
@@ -690,27 +1129,48 @@ def s_ops():
             mode=st.sampled_from(["pos", "pos", "pos", "neg", "neg", "hi", "lo"]),
             **{"as": st.sampled_from(["int", "int", "np", "index"])}
         ),
-        "slice": lambda: _op("slice", src=_SRC, start=_BOUND, stop=_BOUND, step=_STEP),
+        "slice": lambda: _op(
+            "slice", src=_SRC, start=_BOUND, stop=_BOUND, step=_STEP,
+            bas=st.sampled_from(["int", "int", "int", "np", "index", "mixed", "mixed2"]),
+        ),
         "index": lambda: _op(
             "index",
             src=_SRC,
             idx=st.lists(_ELT, min_size=0, max_size=8),
             oob=st.sampled_from([False] * 7 + [True]),
-            **{"as": st.sampled_from(["list", "tuple", "ndarray", "ndarray", "ndarray_i16", "iter", "range", "range"])}
+            mut=_MUT,
+            **{
+                "as": st.sampled_from(
+                    ["list", "list", "tuple", "ndarray", "ndarray", "ndarray_i16", "mixed", "mixed", "iter", "range", "range"]
+                )
+            }
         ),
         "repeat": lambda: _op("repeat", src=_SRC, n=st.integers(0, 3)),
         "add": lambda: _op("add", src=_SRC, other=_SRC),
-        "add_list": lambda: _op("add_list", src=_SRC, n=st.integers(0, 4)),
+        "add_list": lambda: _op("add_list", src=_SRC, n=st.integers(0, 4), mut=_MUT),
         "add_bad": lambda: _op("add_bad", src=_SRC, what=st.sampled_from(["int", "none", "float", "object"])),
         "copy": lambda: _op("copy", src=_SRC),
         "len": lambda: _op("len", src=_SRC),
         "iter": lambda: _op("iter", src=_RSRC, k=st.one_of(st.none(), _ELT)),
+        "reversed": lambda: _op("reversed", src=_RSRC, k=st.one_of(st.none(), _ELT)),
+        "contains": lambda: _op("contains", src=_RSRC, t=_ELT, absent=st.sampled_from([False, False, False, True])),
+        "index_of": lambda: _op(
+            "index_of", src=_RSRC, t=_ELT, absent=st.sampled_from([False, False, False, True]),
+            start=st.one_of(st.none(), st.none(), st.integers(-10, 10)),
+        ),
+        "count": lambda: _op("count", src=_RSRC, t=_ELT, absent=st.sampled_from([False, False, False, True])),
+        "corrupt": lambda: _op(
+            "corrupt", which=_ELT, how=st.sampled_from(["garbage", "garbage", "delete", "empty", "retag", "retag"])
+        ),
     }
     # weights = number of (distinct but equal) branches; one_of shrinks towards the first branches
     weights = [
         ("get", 9), ("iter", 5), ("len", 2), ("copy", 3), ("map", 6), ("slice", 8), ("index", 7), ("repeat", 4),
         ("add", 5), ("add_list", 3), ("map_list", 5), ("new", 1), ("map_bad", 1), ("map_ambiguous", 1), ("add_bad", 1),
+        ("reversed", 2), ("contains", 2), ("index_of", 2), ("count", 1),
     ]
+    if importers:
+        weights.append(("corrupt", 5))
 
     def mix(only=None):
         branches = []
@@ -719,7 +1179,7 @@ def s_ops():
                 branches.extend(make[name]() for _ in range(w))
         return st.one_of(*branches)
 
-    return mix(), mix(DERIVE), mix(("get", "iter"))
+    return mix(), mix(DERIVE), mix(("get", "iter", "reversed"))
 
 
 def _chunks(op, max_ops):
@@ -731,15 +1191,28 @@ def _chunks(op, max_ops):
     )
 
 
-def s_program(max_ops):
-    op, derive, read = s_ops()
-    init = st.fixed_dictionaries(_ctor_fields())
+def s_program(max_ops, importers=False):
+    op, derive, read = s_ops(importers)
+    init = st.fixed_dictionaries(_import_fields() if importers else _ctor_fields())
     free = _chunks(op, max_ops)
     # second shape: a run of derivations, a read, then anything (shrinks to the free shape)
     staged = st.tuples(st.lists(derive, min_size=3, max_size=8), read, _chunks(op, max_ops - 9)).map(
         lambda t: t[0] + [t[1]] + t[2]
     )
-    return st.fixed_dictionaries({"init": init, "verify": st.booleans(), "ops": st.one_of(free, staged)})
+    shapes = [free, staged, staged] if importers else [free, staged]
+    return st.fixed_dictionaries({"init": init, "verify": st.booleans(), "ops": st.one_of(*shapes)})
+
+
+def s_import_generator():
+    how = st.sampled_from(["garbage", "delete", "empty", "retag"])
+    step = st.one_of(st.none(), st.none(), st.tuples(_ELT, how).map(list))
+    return st.fixed_dictionaries(
+        {
+            "init": st.fixed_dictionaries(_import_fields()),
+            "steps": st.lists(step, min_size=0, max_size=10),
+            "drain": st.booleans(),
+        }
+    )
 
 
 # ---------------------------------------------------------------------------------- exhaustive small scope
@@ -810,6 +1283,18 @@ CLAUSES = [
     Clause(
         "long_programs", c_program, lambda: s_program(50), quick=400, thorough=20000, nt_floor=0.3,
         rule="same interpreter, programs of <= 50 ops",
+    ),
+    Clause(
+        "importers", c_program, lambda: s_program(16, importers=True), quick=500, thorough=15000, nt_floor=0.25,
+        rule="same interpreter; the first list is menpo.io.import_images over 1..6 tagged PNG files written in drawn "
+        "order (glob '*.png' / '*' / the directory; max_images; landmark_resolver = a logging function / default / "
+        "None); extra op 'corrupt' overwrites/deletes/rewrites one file on disk at any time; non-trivial: as "
+        "'programs' and the list read holds an imported element",
+    ),
+    Clause(
+        "import_generator", c_import_generator, s_import_generator, quick=200, thorough=5000, nt_floor=0.3,
+        rule="import_images(as_generator=True) over the same directories, files corrupted before and between "
+        "next() calls; non-trivial: >= 2 files and >= 1 item yielded",
     ),
     Clause(
         "small_scope", c_program, enumerate=enum_small,
